@@ -32,7 +32,7 @@ def shapes_for(vb, rng):
     out = []
     k = rng.randint(1, 4)
     for _ in range(k):
-        place = rng.choice(['inside', 'outside', 'left', 'right', 'top', 'bottom', 'corner', 'cover', 'bowtie'])
+        place = rng.choice(['inside', 'outside', 'left', 'right', 'top', 'bottom', 'corner', 'cover', 'bowtie', 'donut', 'star'])
         if place == 'inside': pts = [(x + 1, y + 1), (x + w - 1, y + 1), (x + w // 2, y + h - 1)]
         elif place == 'outside': pts = [(x - 5, y - 5), (x - 2, y - 5), (x - 3, y - 2)]
         elif place == 'left': pts = [(x - 2, y + 1), (x + 2, y + 1), (x + 2, y + 3), (x - 2, y + 3)]
@@ -41,11 +41,17 @@ def shapes_for(vb, rng):
         elif place == 'bottom': pts = [(x + 1, y + h - 2), (x + 4, y + h + 2), (x + 2, y + h + 3)]
         elif place == 'corner': pts = [(x - 2, y - 2), (x + 3, y - 1), (x + 2, y + 3), (x - 1, y + 2)]
         elif place == 'cover': pts = [(x - 3, y - 3), (x + w + 3, y - 3), (x + w + 3, y + h + 3), (x - 3, y + h + 3)]
+        elif place == 'star': pts = [(x + 2, y - 2), (x + 4, y + 5), (x - 1, y + 1), (x + 5, y + 1), (x, y + 5)]   # winding 2 in the middle
         else: pts = [(x - 1, y - 1), (x + 4, y + 4), (x + 4, y - 1), (x - 1, y + 4)]
         attrs = {}
         if rng.random() < 0.4: attrs['fill'] = rng.choice(['red', 'blue'])
-        if rng.random() < 0.3: attrs['fill_rule'] = 'evenodd'
+        if rng.random() < (0.6 if place in ('donut', 'star') else 0.3): attrs['fill_rule'] = 'evenodd'
         if rng.random() < 0.2: attrs['opacity'] = 0.5
+        if place == 'donut':
+            # a hole drawn in the SAME direction as the outline (a hole only under even-odd), sticking out of the viewBox
+            inner = [(x, y), (x + 3, y), (x + 3, y + 3), (x, y + 3)]
+            if rng.random() < 0.3: inner.reverse()
+            out.append((place, attrs, poly_d([(x - 2, y - 2), (x + 5, y - 2), (x + 5, y + 5), (x - 2, y + 5)]) + ' ' + poly_d(inner))); continue
         out.append((place, attrs, poly_d(pts)))
     return out
 
